@@ -693,7 +693,13 @@ func (m *MapType) Unmarshal(reader string) *Statement {
 
 // Type returns the Go representation of the type.
 func (m *MapType) Type() reflect.Type {
-	return reflect.MapOf(m.key.Type(), m.value.Type())
+	key := m.key.Type()
+	if !key.Comparable() {
+		// Go has no map with such a key: not representable,
+		// as for the unknown type.
+		return reflect.TypeOf((*error)(nil))
+	}
+	return reflect.MapOf(key, m.value.Type())
 }
 
 // NewMemberType is a contructor for the representation of a field in
